@@ -124,8 +124,12 @@ class SymLogic:
 class ConcLogic:
     mode = "conc"
 
-    def __init__(self, tol=CONC_TOL):
+    def __init__(self, tol=CONC_TOL, lenient=False):
         self.tol = tol
+        # lenient: strict comparisons get the benefit of the doubt as well.  Used when a claim is evaluated on a test vector that did
+        # NOT come from the solver (concrete fallback): such vectors may sit on an exact tie of the real-valued semantics, where float
+        # rounding decides the code's choice either way; only a violation beyond rounding counts there
+        self.lenient = lenient
 
     def _t(self, a, b):
         return self.tol * (1.0 + abs(float(a)) + abs(float(b)))
@@ -139,6 +143,8 @@ class ConcLogic:
     def lt(self, a, b):
         # strict claims are only replayed after the solver produced an exact-arithmetic counterexample (a >= b);
         # a float run that lands within rounding of equality must count as reproducing it, so strictness needs a margin
+        if self.lenient:
+            return bool(float(a) < float(b) + self._t(a, b))
         return bool(float(a) < float(b) - self._t(a, b))
 
     def gt(self, a, b):
@@ -489,7 +495,7 @@ def _run_task_symbolic(modname, params, opts, t0):
     if do_profile:
         sys.setprofile(_profiler(os.path.realpath(_PK.repo)))
     guides = []
-    if getattr(mod, "GUIDED", False) and hasattr(mod, "test_vectors"):
+    if getattr(mod, "GUIDED", False) and hasattr(mod, "test_vectors") and (not hasattr(mod, "guided_for") or mod.guided_for(params)):
         try:
             guides = [dict(v) for v in mod.test_vectors(params)][: getattr(mod, "GUIDED_N", 3)]
         except Exception:  # noqa: BLE001
@@ -604,6 +610,16 @@ def concrete_main():
         pid = os.fork()
         if pid == 0:
             try:
+                # a concrete job is one scenario run: bound it (a constant choice sequence can drive a rejection-sampling loop forever)
+                import resource
+                import signal
+                lim = int(job.get("limit_s", 180))
+                signal.signal(signal.SIGALRM, lambda *_a: (_ for _ in ()).throw(_JobAbort(f"concrete job exceeded {lim}s")))
+                signal.alarm(lim)
+                try:
+                    resource.setrlimit(resource.RLIMIT_AS, (12 * 2 ** 30, 12 * 2 ** 30))
+                except (ValueError, OSError):
+                    pass
                 out = json.dumps(concrete_job(pk, job))
             except BaseException as e:  # noqa: BLE001
                 out = json.dumps({"exception": "HarnessError", "message": repr(e)[:300], "outputs": None, "failed": [], "assumptions_ok": True})
@@ -613,11 +629,15 @@ def concrete_main():
         os.waitpid(pid, 0)
 
 
+class _JobAbort(BaseException):
+    """Resource limit of a concrete job hit: a harness condition, never a behaviour of the code under analysis."""
+
+
 def concrete_job(pk, job):
     mod = importlib.import_module(job["module"])
     params, values = job["params"], job["values"]
     inp = ConcInputs(values)
-    lg = ConcLogic(getattr(mod, "CONC_TOL", CONC_TOL))     # a module may demand exactness (C19: bit-exact round trip)
+    lg = ConcLogic(getattr(mod, "CONC_TOL", CONC_TOL), lenient=bool(job.get("lenient")))     # a module may demand exactness (C19: bit-exact round trip)
     ans = {"exception": None, "outputs": None, "failed": [], "assumptions_ok": True, "nonfinite": []}
     try:
         ass = mod.setup(params, inp, lg)
@@ -632,6 +652,8 @@ def concrete_job(pk, job):
         if hasattr(mod, "canaries"):
             cl += list(mod.canaries(params, inp, out, lg))
         ans["failed"] = [c[0] for c in cl if not bool(c[1])]
+    except MemoryError as e:
+        raise _JobAbort("concrete job exceeded its memory limit") from e
     except Exception as e:  # noqa: BLE001
         ans["exception"] = type(e).__name__
         ans["message"] = str(e)[:300]
@@ -703,9 +725,11 @@ sys.exit(1 if hit else 0)
 '''
 
 
-def write_replay(pid, module, params, values, claim, heavy, expect=None):
+def write_replay(pid, module, params, values, claim, heavy, expect=None, lenient=False):
     os.makedirs(os.path.join(VERIF, "replays"), exist_ok=True)
     job = {"module": module, "params": params, "values": values}
+    if lenient:
+        job["lenient"] = True
     h = hashlib.sha1(json.dumps([job, claim], sort_keys=True).encode()).hexdigest()[:10]
     path = os.path.join(VERIF, "replays", f"{pid}-{_slug(claim)}-{h}.py")
     with open(path, "w") as f:
